@@ -1066,9 +1066,14 @@ def check_convention(ctx: Check, tree: Tree) -> None:
     gk = tree.func("ampform.helicity::_generate_kinematic_variables")
     res = te.eval_function(gk, [transition, node_id])
     branches = res.branches if isinstance(res, PW) else [(res, None)]
-    if not all(isinstance(r, Tup) and len(r.items) == 3 for r, _ in branches):
+    def triple(r):
+        # read positionally: a tuple, or a NamedTuple record (te._sequence raises AnalysisError on anything else)
+        return list(r.items) if isinstance(r, Tup) else te._sequence(r, f"{gk.qual}: returned value")
+
+    triples = [triple(r) for r, _ in branches]
+    if not all(len(t) == 3 for t in triples):
         raise AnalysisError(f"{gk.qual}: does not return a triple (mass, phi, theta): {repr(res)[:120]}")
-    ok = all(_same(te, r.items[1], phi) and _same(te, r.items[2], theta) for r, _ in branches)
+    ok = all(_same(te, t[1], phi) and _same(te, t[2], theta) for t in triples)
     ctx.verdict(ok, "R-CONVENTION", f"{gk.qual}::angles-of-children0", tree.loc(gk.node),
                 "_generate_kinematic_variables: (phi, theta) are the angle symbols of decay.children[0] (the helicity state)", None if ok else repr(res)[:200])
     fn = tree.func("ampform.helicity::formulate_isobar_wigner_d")
